@@ -833,6 +833,7 @@ package state
 //@ modifies nothing
 //@ func assignServiceVirtualIP
 //@ trusted
+//@ opt record assignServiceVirtualIP
 //@ results vip, err
 //@ modifies T.index
 //@ func getTermGatewayVirtualIPs
@@ -849,6 +850,7 @@ package state
 //@ ensures[instance-stored] rerr == nil ==> serviceAt(node, svc.ID, svc.PeerName) != nil
 //@ ensures[only-this-instance-written] forall k string :: T_services(k) == old(T_services(k)) || (T_services(k) != nil && T_services(k) == serviceAt(node, svc.ID, svc.PeerName))
 //@ ensures[nodes-and-checks-untouched] (forall k string :: T_nodes(k) == old(T_nodes(k))) && (forall k string :: T_checks(k) == old(T_checks(k)))
+//@ ensures[advertised-virtual-ip-is-the-assigned-one] rerr == nil && svc.Kind != structs.ServiceKindTerminatingGateway && called("assignServiceVirtualIP") && !old(called("assignServiceVirtualIP")) ==> has(svc.TaggedAddresses, structs.TaggedAddressVirtualIP) && svc.TaggedAddresses[structs.TaggedAddressVirtualIP].Address == lastStr("assignServiceVirtualIP")
 //@ ensures[C06-writer-bumps-services-index] rerr == nil && serviceAt(node, svc.ID, svc.PeerName) != old(serviceAt(node, svc.ID, svc.PeerName)) ==> idxVal("services") >= serviceAt(node, svc.ID, svc.PeerName).ModifyIndex && idxVal("nodes") >= serviceAt(node, svc.ID, svc.PeerName).ModifyIndex
 //@ modifies T.services, T.index, svc.TaggedAddresses
 
